@@ -27,6 +27,8 @@ fn starts() -> Vec<Start> {
         Start { name: "0.0.0", args: a(&["--source", "none", "--tag-version", "0.0.0"]), stdin: None },
         Start { name: "1.2.3-alpha.1.post.2+b", args: a(&["--source", "none", "--tag-version", "1.2.3-alpha.1.post.2+b", "--bumped-branch", "main"]), stdin: None },
         Start { name: "stdin-u64max", args: a(&["--source", "stdin"]), stdin: Some(big) },
+        // a source that carries an epoch, a pre-release, post and dev of its own (a --tag-version override must replace all of it)
+        Start { name: "stdin-epoch", args: a(&["--source", "stdin"]), stdin: Some("(schema:(core:[var(Major),var(Minor),var(Patch)],extra_core:[var(Epoch),var(PreRelease),var(Post),var(Dev)],build:[]),vars:(epoch:Some(3),major:Some(1),minor:Some(2),patch:Some(3),pre_release:Some((label:Beta,number:Some(4))),post:Some(5),dev:Some(6),bumped_branch:Some(\"br\"),custom:{}))".to_string()) },
         // a pre-release at number 0 with post and dev behind it: an operation that "changes nothing" at its own level (label
         // bump to the same label, bump by 0, override to the present value) must still reset what lies below
         Start { name: "1.2.3-beta.0.post.2.dev.1", args: a(&["--source", "none", "--tag-version", "1.2.3-beta.0.post.2.dev.1"]), stdin: None },
@@ -57,8 +59,20 @@ fn run(start: &Start, schema: &[String], ops_argv: &[String]) -> Result<Res, Pan
     zv::run_cli(&args, start.stdin.as_deref())
 }
 
+thread_local! { static TAG_OVERRIDE_OK: std::cell::Cell<bool> = const { std::cell::Cell::new(false) }; }
+
+fn alphabet_for(env: &Env, full: bool) -> Vec<Op> {
+    TAG_OVERRIDE_OK.with(|c| c.set(env.start.stdin.is_some()));
+    let v = alphabet(&env.init, full);
+    TAG_OVERRIDE_OK.with(|c| c.set(false));
+    v
+}
+
 fn alphabet(st: &State, full: bool) -> Vec<Op> {
     let mut v = vec![];
+    // the stdin starts carry their own version: there a --tag-version override is one more operation (the other starts
+    // already pass --tag-version, and clap refuses the flag twice)
+    if TAG_OVERRIDE_OK.with(|c| c.get()) { v.push(Op::TagVersion("9.8.7")); if full { v.push(Op::TagVersion("4.5.6-rc.2")); } }
     for f in [Field::Epoch, Field::Major, Field::Minor, Field::Patch, Field::PreNum, Field::Post, Field::Dev] {
         v.push(Op::Override(f.clone(), 0));
         v.push(Op::Override(f.clone(), 3));
@@ -176,7 +190,7 @@ fn main() {
         // replay: run the recorded argv and compare with the first-order result of the same op set is not possible
         // without the op list, so the replay re-explores subsets of size <= 2 of the matching environment
         let env = envs.iter().find(|e| Some(e.start.name) == case["start"].as_str() && Some(e.schema_name) == case["schema"].as_str()).unwrap_or_else(|| machinery_error("unknown environment"));
-        let alpha = alphabet(&env.init, true);
+        let alpha = alphabet_for(env, true);
         let want: Vec<String> = case["argv"].as_array().map(|v| v.iter().map(|x| x.as_str().unwrap().to_string()).collect()).unwrap_or_default();
         let mut st = Stats::default();
         for sub in subsets(alpha.len(), 4) {
@@ -191,7 +205,7 @@ fn main() {
     let mut total = Stats::default();
     let mut alpha_sizes = vec![];
     for env in &envs {
-        let alpha = alphabet(&env.init, !quick);
+        let alpha = alphabet_for(env, !quick);
         alpha_sizes.push(alpha.len());
         // the literal-heavy schema has the largest alphabet: one size smaller there
         let k = match (quick, env.schema_name) { (true, "ron-literals") | (true, "ron-reordered") => 2, (true, _) => 3, (false, _) => 3 };
@@ -257,7 +271,7 @@ fn main() {
     // chaining through --source stdin: B applied to the zerv-format output of A
     let mut s3 = Stats::default();
     for env in envs.iter().filter(|e| e.schema_name != "calver-base" || !quick) {
-        let alpha = alphabet(&env.init, false);
+        let alpha = alphabet_for(env, false);
         let firsts = subsets(alpha.len(), 1);
         let seconds = subsets(alpha.len(), if quick { 1 } else { 2 });
         let st = firsts.par_iter().map(|fa| {
@@ -296,7 +310,7 @@ fn main() {
     let mut s4 = Stats::default();
     {
         let env = &envs[1];
-        let alpha = alphabet(&env.init, false);
+        let alpha = alphabet_for(env, false);
         let subs = subsets(alpha.len(), 2);
         let slice: Vec<&Vec<usize>> = subs.iter().step_by((subs.len() / 120).max(1)).collect();
         let bad: Vec<(String, String)> = slice.par_iter().filter_map(|sub| {
@@ -317,7 +331,7 @@ fn main() {
     cov.evaluations = cov.transitions;
     cov.traces_validated = cov.transitions;
     cov.distinct_nontrivial = all.get("model_ok");
-    cov.rule = format!("flag-instance alphabets of sizes {alpha_sizes:?} per (start version x schema) environment ({} environments: 7 start versions x 4 schemas): every subset up to size 3 (2 for the literal-heavy schema in quick) run through the real clap parser + run_version_pipeline with --output-format zerv and compared (schema + vars) with R-BUMP; permutations: all orders for subsets up to size {} and the reversed order above; invalid targets and boundary amounts enumerated per section; chaining: every single op, then every op set of size <= {} via --source stdin, model continued from the intermediate state. non-trivial = runs where the model predicts success and the full state is compared", envs.len(), if quick { 2 } else { 3 }, if quick { 1 } else { 2 });
+    cov.rule = format!("flag-instance alphabets of sizes {alpha_sizes:?} per (start version x schema) environment ({} environments: 8 start versions x 4 schemas): every subset up to size 3 (2 for the literal-heavy schema in quick) run through the real clap parser + run_version_pipeline with --output-format zerv and compared (schema + vars) with R-BUMP; permutations: all orders for subsets up to size {} and the reversed order above; invalid targets and boundary amounts enumerated per section; chaining: every single op, then every op set of size <= {} via --source stdin, model continued from the intermediate state. non-trivial = runs where the model predicts success and the full state is compared", envs.len(), if quick { 2 } else { 3 }, if quick { 1 } else { 2 });
     cov.exhaustive = true;
     cov.samples = vec![json!({"start":"1.2.3-rc.4","schema":"standard-base-prerelease-post-dev","argv":["--bump-major","--patch","3","--bump-extra-core=~1"]}), json!({"start":"stdin-u64max","schema":"ron-literals","argv":["--bump-major=2"]}), json!({"chain":["--bump-minor"],"then":["--core=0=4"]})];
     cov.set("clause_counts", all.to_json());
